@@ -15,11 +15,19 @@ import (
 type c19Comp struct {
 	Type string `json:"type"`
 	UID  string `json:"uid"` // "" = component carries no UID
+	// RawUID: UID is the raw property value, written without escaping (used
+	// for values that are not valid TEXT: a lone trailing backslash, an
+	// unknown escape); Binary adds VALUE=BINARY to the property.
+	RawUID bool `json:"raw_uid,omitempty"`
+	Binary bool `json:"binary,omitempty"`
 }
 
 type c19Case struct {
-	Method bool      `json:"method"`
-	Comps  []c19Comp `json:"comps"`
+	Method bool `json:"method"`
+	// MethodVal is the raw value of the METHOD property ("" with Method set is
+	// a METHOD property without a value).
+	MethodVal string    `json:"method_val,omitempty"`
+	Comps     []c19Comp `json:"comps"`
 	// ViaText: the calendar is written as iCalendar text and parsed by
 	// go-ical before validation (instead of being built in memory).
 	ViaText bool `json:"via_text,omitempty"`
@@ -35,6 +43,13 @@ func c19Model(cs c19Case) (accept bool, typ, uid string, open bool) {
 	}
 	types := map[string]bool{}
 	uids := map[string]bool{}
+	for _, c := range cs.Comps {
+		if c.RawUID || c.Binary {
+			// a UID that is not valid TEXT: outside the statement's domain for
+			// accept/reject (only "rejection returns empty results" is checked)
+			return true, "", "", true
+		}
+	}
 	for _, c := range cs.Comps {
 		if c.Type != "VTIMEZONE" {
 			types[c.Type] = true
@@ -61,12 +76,16 @@ func c19Build(cs c19Case) (*ical.Calendar, error) {
 		var sb strings.Builder
 		sb.WriteString("BEGIN:VCALENDAR\r\nVERSION:2.0\r\nPRODID:-//verif//EN\r\n")
 		if cs.Method {
-			sb.WriteString("METHOD:PUBLISH\r\n")
+			sb.WriteString("METHOD:" + cs.MethodVal + "\r\n")
 		}
 		for _, c := range cs.Comps {
 			sb.WriteString("BEGIN:" + c.Type + "\r\n")
-			if c.UID != "" {
-				sb.WriteString("UID:" + c.UID + "\r\n")
+			if c.UID != "" || c.RawUID {
+				if c.Binary {
+					sb.WriteString("UID;VALUE=BINARY:" + c.UID + "\r\n")
+				} else {
+					sb.WriteString("UID:" + c.UID + "\r\n")
+				}
 			}
 			if c.Type == "VTIMEZONE" {
 				sb.WriteString("TZID:Europe/Paris\r\nBEGIN:STANDARD\r\nDTSTART:19701025T030000\r\nTZOFFSETFROM:+0200\r\nTZOFFSETTO:+0100\r\nEND:STANDARD\r\n")
@@ -82,11 +101,21 @@ func c19Build(cs c19Case) (*ical.Calendar, error) {
 	cal.Props.SetText(ical.PropVersion, "2.0")
 	cal.Props.SetText(ical.PropProductID, "-//verif//EN")
 	if cs.Method {
-		cal.Props.SetText(ical.PropMethod, "PUBLISH")
+		mp := ical.NewProp(ical.PropMethod)
+		mp.Value = cs.MethodVal
+		cal.Props.Set(mp)
 	}
 	for _, c := range cs.Comps {
 		comp := ical.NewComponent(c.Type)
-		if c.UID != "" {
+		switch {
+		case c.RawUID || c.Binary:
+			up := ical.NewProp(ical.PropUID)
+			up.Value = c.UID
+			if c.Binary {
+				up.Params.Set(ical.ParamValue, "BINARY")
+			}
+			comp.Props.Set(up)
+		case c.UID != "":
 			comp.Props.SetText(ical.PropUID, c.UID)
 		}
 		if c.Type == "VTIMEZONE" {
@@ -123,8 +152,18 @@ func c19Class(cs c19Case) string {
 	if n > 6 {
 		n = 7
 	}
+	mcls := fmt.Sprint(cs.Method)
+	if cs.Method && cs.MethodVal != "PUBLISH" {
+		mcls = "other-value"
+		if strings.TrimLeft(cs.MethodVal, " ,") != cs.MethodVal || cs.MethodVal == "" {
+			mcls = "empty-first-value"
+		}
+	}
+	if c19HasBadUID(cs) {
+		mcls += "+malformed-uid"
+	}
 	return fmt.Sprintf("m=%v|types=%d|uids=%d|firstTZ=%v|firstNoUID=%v|n=%d|text=%v",
-		cs.Method, cap2(len(types)), cap2(len(uids)), firstTZ, firstNoUID, n, cs.ViaText)
+		mcls, cap2(len(types)), cap2(len(uids)), firstTZ, firstNoUID, n, cs.ViaText)
 }
 
 func c19Exec(c *fw.Ctx, cs c19Case) {
@@ -156,6 +195,8 @@ func c19Exec(c *fw.Ctx, cs c19Case) {
 	switch {
 	case !got && (typ != "" || uid != ""):
 		c.Report("reject-with-nonempty-results", fmt.Sprintf("rejected (%v) but returned type=%q uid=%q", verr, typ, uid), cs)
+	case open && c19HasBadUID(cs):
+		// only the rejection invariant above applies
 	case open:
 		if got && uid != muid {
 			c.Report("accept-wrong-uid|no-typed-component", fmt.Sprintf("accepted with uid=%q, want %q", uid, muid), cs)
@@ -167,6 +208,15 @@ func c19Exec(c *fw.Ctx, cs c19Case) {
 	case accept && (typ != mtyp || uid != muid):
 		c.Report("wrong-result|"+cls, fmt.Sprintf("accepted with type=%q uid=%q, want type=%q uid=%q", typ, uid, mtyp, muid), cs)
 	}
+}
+
+func c19HasBadUID(cs c19Case) bool {
+	for _, c := range cs.Comps {
+		if c.RawUID || c.Binary {
+			return true
+		}
+	}
+	return false
 }
 
 func c19Run(c *fw.Ctx) {
@@ -190,11 +240,53 @@ func c19Run(c *fw.Ctx) {
 		}
 		for _, t := range c19Types {
 			for _, u := range uids {
-				rec(append(prefix, c19Comp{t, u}))
+				rec(append(prefix, c19Comp{Type: t, UID: u}))
 			}
 		}
 	}
 	rec(nil)
+	// METHOD spelt in every way a property can be present (the rule is about
+	// the presence of the property, not its value), and UIDs that are not
+	// valid TEXT, each over all sequences of <= 3 components.
+	methodVals := []string{"PUBLISH", "", ",PUBLISH", "REQUEST", "publish", " ", "\\", "X-CUSTOM"}
+	badUIDs := []c19Comp{{UID: "abc\\", RawUID: true}, {UID: "a\\xb", RawUID: true}, {UID: "AAEC", Binary: true}, {UID: "", RawUID: true}}
+	var rec2 func(prefix []c19Comp)
+	rec2 = func(prefix []c19Comp) {
+		for _, mv := range methodVals {
+			if c.Mine(idx) {
+				c19Exec(c, c19Case{Method: true, MethodVal: mv, Comps: append([]c19Comp(nil), prefix...)})
+				c19Exec(c, c19Case{Method: true, MethodVal: mv, Comps: append([]c19Comp(nil), prefix...), ViaText: mv != "\\"})
+				c.Observe("universe", "method-value-variants", 2)
+			}
+			idx++
+		}
+		for pos := 0; pos <= len(prefix); pos++ {
+			for _, bad := range badUIDs {
+				for _, t := range []string{"VEVENT", "VTODO", "VTIMEZONE"} {
+					if c.Mine(idx) {
+						comps := append([]c19Comp(nil), prefix[:pos]...)
+						b := bad
+						b.Type = t
+						comps = append(comps, b)
+						comps = append(comps, prefix[pos:]...)
+						c19Exec(c, c19Case{Comps: comps})
+						c19Exec(c, c19Case{Comps: comps, ViaText: true})
+						c.Observe("universe", "malformed-uid-variants", 2)
+					}
+					idx++
+				}
+			}
+		}
+		if len(prefix) == 3 {
+			return
+		}
+		for _, t := range c19Types {
+			for _, u := range uids {
+				rec2(append(prefix, c19Comp{Type: t, UID: u}))
+			}
+		}
+	}
+	rec2(nil)
 	c.Note("exhaustive_part", fmt.Sprintf("all sequences of <= %d components over %v x uid{absent,u1,u2} x METHOD{absent,present}", maxLen, c19Types))
 
 	// Random larger calendars, half of them through the go-ical text parser.
@@ -206,6 +298,9 @@ func c19Run(c *fw.Ctx) {
 		}
 		r := c.Rand("c19", i)
 		cs := c19Case{Method: r.Intn(8) == 0, ViaText: r.Intn(2) == 0}
+		if cs.Method {
+			cs.MethodVal = []string{"PUBLISH", "", ",PUBLISH", "REQUEST", "CANCEL"}[r.Intn(5)]
+		}
 		k := r.Intn(30)
 		// Bias towards nearly-valid calendars: one main type, one main uid.
 		mainT := c19Types[r.Intn(4)]
@@ -230,7 +325,7 @@ func c19Run(c *fw.Ctx) {
 			if !cs.ViaText && strings.ContainsAny(u, ",;\\") {
 				// set through SetText (escaped), compare unescaped
 			}
-			cs.Comps = append(cs.Comps, c19Comp{t, u})
+			cs.Comps = append(cs.Comps, c19Comp{Type: t, UID: u})
 		}
 		c19Exec(c, cs)
 		c.Observe("universe", "random", 1)
